@@ -47,7 +47,7 @@ CHECKS = {
             "Random histories (all primaries, GC, reopen) during which an independent re-implementation of the on-disk formats checks every clause of the invariant after each Flush, completed GC cycle, reopen and "
             "Close: live table = own rescan = snapshot; bucket -> complete, non-deleted, correctly tagged record; entries sorted, prefix-free, distinct locations; entry -> complete, non-deleted primary record "
             "with matching size, bucket bits and stored prefix; no live location on the freelist files; first-file numbers not beyond referenced files. "
-            "A crash sub-campaign restores drawn crash images of recorded workloads, opens them and checks the same invariant on the recovered store; one history in six comes from the C09 generator (re-bucketing), and the volume cases of C05/C06 (free-running concurrent use) are judged by the fsck of the directory after Close.",
+            "Crash sub-campaigns restore drawn crash images of recorded workloads (and images taken while a call is parked between its sub-steps and another task's Flush has completed), opens them and checks the same invariant on the recovered store; one history in six comes from the C09 generator (re-bucketing), and the volume cases of C05/C06 (free-running concurrent use) are judged by the fsck of the directory after Close.",
             BASE + " The fsck reader is written from the format description and shares no code with the repository; it is itself trusted.", "4 C07"),
     "C10": (True, "exploration", "property testing over generated legacy stores (own encoder of the legacy formats) + crash-point enumeration inside the conversion",
             "The harness writes version-2 single-file indexes, unversioned single-file primaries and freelists with its own encoder from generated map histories (superseded lists, pending/applied/lost freelist entries, optionally a cut primary so that "
@@ -57,14 +57,14 @@ CHECKS = {
     "C11": (True, "exploration", "property testing with validity predicates over generated histories (kill phase + GC cycles to a fixed point)",
             "Random histories followed by a generated kill phase (remove/overwrite every key in non-current primary files, rewrite every bucket referring into non-current index files, flush) and rounds of "
             "[primary GC, index GC, flush]; checked: a byte-identical fixed point is reached within a generous bound derived from the cycle structure, every fully dead primary file and every unreferenced index file "
-            "is empty or gone there, no non-current file is still low-use by the threshold, StorageSize never grows inside a cycle and grows at the following flush by at most the outstanding (relocated) work. "
+            "is empty or gone there, after a close/reopen and three more cycles no empty non-current file is the header's first file, no non-current file is still low-use by the threshold, StorageSize never grows inside a cycle and grows at the following flush by at most the outstanding (relocated) work. "
             "The index cycles of the closure scan for unreferenced files every other time, never or always (drawn per case). A crash sub-campaign runs the same closure on stores recovered from crash images (orphan records, lost freelist entries, torn tails). Liveness is checked in this bounded form, which is what generated-input search can give.",
             BASE + " Thresholds are fixed per case; threshold 0 (every file permanently low-use) is excluded from the fixed-point clause.", "4 C11"),
     "C03": (True, "fault_enumeration", "crash-point enumeration over generated workloads (named points capture every intermediate directory image; torn-write synthesis; durability-model oracle; post-recovery model-based history; second crash after the recovered store's next flush)",
             "Generated workloads (puts, overwrites, removals, flushes, iteration, GC cycles with and without unflushed data and budgets, close/reopen) run with a handler on ~140 named points that snapshots the directory before every file-system step; "
             "consecutive images are diffed into single steps, and every byte prefix of every written region is synthesised as a torn state (a self-check counts steps that have no point in between as hook_gaps, so the enumeration is complete with respect to the code that ran). "
             "Each crash image is restored and opened; the open must succeed, every key must read a value it legitimately had between the last completed Flush/Close and the crash instant (for every instant the same bytes were on disk), never foreign bytes, and a generated suffix "
-            "with GC and reopen must then behave like the map model. Quick draws a few states per workload; thorough enumerates all states of every workload, and a sample of second-level crashes inside the recovery open.",
+            "with GC and reopen must then behave like the map model. Quick draws a few states per workload; thorough enumerates all states of every workload, and a sample of second-level crashes inside the recovery open. A further sub-campaign takes the image while one call is parked between its sub-steps and a Flush of another task has completed (a flush inside a call, which sequential workloads never produce).",
             BASE + " Process-crash model (completed system calls are durable); positional writes of <=4 bytes are atomic. Enumeration is exhaustive per generated workload, not over all workloads.", "4 C03"),
     "C08": (True, "exploration", "small-scope exhaustive enumeration + rapid random sequences against a per-operation invariant oracle",
             "index.Index over the in-memory primary, driven under the caller contract the store keeps. Every ordered insertion of up to 5/6 keys of the universe {bucket}x{0,1}^3 followed by every single re-point, removal or re-insertion "
@@ -79,16 +79,16 @@ CHECKS = {
     "C12": (True, "exploration", "schedule exploration of the back-pressure protocol with the real flusher goroutine adopted by the cooperative scheduler; bounded-liveness closure judged by goroutine state",
             "Writers on a store with BurstRate(0) and a pinned flush rate always enter the waiting path; the scheduler interleaves them with the adopted flusher goroutine and explicit Flush tasks at the points measure / decide / register / signal / wait and inside Flush. "
             "After the generated schedule everything runs freely and three more Flush calls complete; a writer that is then still in the channel receive of the wait while the flusher idles in its select and no flush is in progress can never be released - that state, not elapsed time, is the verdict. "
-            "A free-running sub-campaign (rounds of simultaneously released writers) reaches windows without a named point. Liveness can only be checked in this bounded form by generated-input search.",
+            "A free-running sub-campaign (rounds of simultaneously released writers) reaches windows without a named point, and a single-writer part (burst rates up to 4000, no Flush issued by the harness) requires each waiting call to be released by the flush it asked for itself. Liveness can only be checked in this bounded form by generated-input search.",
             BASE + " Goroutine states are read from runtime.Stack. A run that does not reach a verdict state within 8 s is counted as inconclusive, never as a violation.", "4 C12"),
     "C13": (True, "exploration", "property testing with multiset accounting over histories; concurrent exploration of the freelist package with injected delays at named points",
             "Sequential histories: the multiset of locations that stop being current (overwrite, removal, GC relocation; observed through the public index lookup around every call) must equal the multiset of locations that reach GC "
             "(the .gc batch read at the named point just before it is dropped) plus what is left in .free/.free.gc after a final flush - each exactly once, nothing else, never a current location, and every delivered record is dead after its cycle. "
-            "Concurrent histories on the freelist alone: every Put is delivered exactly once across hand-overs and the final file while Flush/ToGC interleave. "
+            "Bulk histories put 350-800 superseded locations into one hand-over. Concurrent histories on the freelist alone: every Put is delivered exactly once across hand-overs and the final file while Flush/ToGC interleave. "
             "Crash clause: entries that were in .free/.free.gc when the process died (crash images inside the hand-over) name dead records after recovery and two GC cycles.",
             BASE + " The concurrent part is free-running with generated delays at the hook points, so its schedules are explored, not enumerated.", "4 C13"),
     "C14": (True, "exploration", "small-scope exhaustive enumeration of call sequences + rapid random sequences + concurrent stress, against a handle model",
-            "All call sequences (Open/Close/Remove/Clear/SetCacheSize over 2 names, capacities 0..2) to depth 5/6, random sequences to depth 60, and a concurrent stress run; after every call each lent handle must still be usable, "
+            "All call sequences (Open/Close/Remove/Clear/SetCacheSize over 2 names, capacities 0..2) to depth 5/6, random sequences to depth 60, and a concurrent stress run (with an eviction callback in half of the runs, and a descriptor-bound check right after every resize once nothing is lent out); after every call each lent handle must still be usable, "
             "Close of a lent handle must succeed, descriptors on the test files (/proc/self/fd) must not exceed capacity + lent handles, and nothing may stay open at the end.",
             BASE + " Descriptor accounting reads /proc/self/fd (Linux).", "4 C14"),
     "C15": (True, "exploration", "model-based property testing of the blockstore adapter (rapid call sequences vs. map keyed by multihash + contract clauses)",
